@@ -124,12 +124,12 @@ func init() {
 					x.Obs("sibling session did not talk")
 				}
 			}
-			x.Data["served"] = session(p["mode"])
-			x.Data["completed"] = true
+			x.Put("served", session(p["mode"]))
+			x.Put("completed", true)
 		},
 		Check: func(x *vs.Exec, p explore.Params) {
 			desc := fmt.Sprintf("proto=%s plugin=%s", p["proto"], p["mode"])
-			x.Data["nontrivial"] = p["mode"] != "legit"
+			x.Put("nontrivial", p["mode"] != "legit")
 			if x.Data["completed"] != true {
 				if len(x.Violations()) == 0 {
 					x.Fail("L", "session never finished (blocked: %v) [%s]", x.EndBlocked, desc)
